@@ -987,6 +987,40 @@ def evaluate(text, exp, fname="mol.itp", workdir=None):
             f78, disc = check_copy(mol, lambda m: m.copy())
             merge(f78)
             extras["eq_discriminates"] = disc
+        # the connectivity test asked AGAIN on the same atoms after their bond sets were edited: the answer is that of the graph as it is now
+        if mol is not None and CLAUSE_KEYS[6] in evald and CLAUSE_KEYS[6] not in fails and CLAUSE_KEYS[4] not in fails and len(exp["atoms"]) >= 2:
+            try:
+                with _quiet():
+                    mol2 = type(mol)(path)          # a second, untouched load of the same file (the copy clauses above may have edited `mol`)
+                    atoms = mol2.atoms
+                    are_connected(atoms)            # first question
+                n_ = len(atoms)
+                pairs2 = [tuple(p_) for p_ in exp["pairs"]]
+                if want:                    # cut the last atom off: not connected any more
+                    last = n_ - 1
+                    for j in list(atoms[last].bonds):
+                        atoms[last].bonds.discard(j)
+                        atoms[j].bonds.discard(last)
+                    pairs2 = [p_ for p_ in pairs2 if last not in p_]
+                else:                       # join the components one after the other: connected now
+                    comp = list(range(n_))
+
+                    def root(x):
+                        while comp[x] != x:
+                            x = comp[x]
+                        return x
+                    for i_, j_ in pairs2:
+                        comp[root(i_)] = root(j_)
+                    reps = sorted({root(x) for x in range(n_)})
+                    for a_, b_ in zip(reps, reps[1:]):
+                        atoms[a_].connect(atoms[b_])
+                        pairs2.append((a_, b_))
+                want2 = connected_oracle(n_, pairs2)
+                f6b = check_connected(are_connected, atoms, want2)
+                if f6b:
+                    fails[CLAUSE_KEYS[6]] = "asked again on the same atoms after their bond sets were edited: " + f6b[CLAUSE_KEYS[6]]
+            except Exception as e:      # the edit itself failed: not a statement about the connectivity test
+                soft.setdefault(CLAUSE_KEYS[6], Soft(f"could not edit the bond sets for the second question: {_exc(e)}"))
     finally:
         if own:
             shutil.rmtree(workdir, ignore_errors=True)
